@@ -518,6 +518,48 @@ func init() {
 		}
 		return nil
 	}
+	// sync.Pool: Get hands back the item Put most recently (the worst case for
+	// a caller that relies on a pooled object being fresh), else New(), else nil.
+	// Get and Put are synchronisation on the pool object.
+	models["(*sync.Pool).Get"] = func(e *Exec, c *frame, fn *ssa.Function, a []Value) Value {
+		p := a[0].(*Value)
+		if p == nil {
+			e.goPanic("invalid memory address or nil pointer dereference")
+		}
+		e.noteAtomic(p)
+		if e.pools == nil {
+			e.pools = map[*Value][]Value{}
+		}
+		if items := e.pools[p]; len(items) > 0 {
+			it := items[len(items)-1]
+			e.pools[p] = items[:len(items)-1]
+			return it
+		}
+		nt := e.M.namedType("sync", "Pool")
+		newFn := (*p).(Struct)[structFieldIndex(nt, "New")]
+		if cl, ok := newFn.(*Closure); ok && cl == nil {
+			return Iface{}
+		}
+		if newFn == nil {
+			return Iface{}
+		}
+		return e.CallValue(newFn)
+	}
+	models["(*sync.Pool).Put"] = func(e *Exec, c *frame, fn *ssa.Function, a []Value) Value {
+		p := a[0].(*Value)
+		if p == nil {
+			e.goPanic("invalid memory address or nil pointer dereference")
+		}
+		e.noteAtomic(p)
+		if e.pools == nil {
+			e.pools = map[*Value][]Value{}
+		}
+		if it, ok := a[1].(Iface); ok && it.T == nil {
+			return nil
+		}
+		e.pools[p] = append(e.pools[p], a[1])
+		return nil
+	}
 	// integer atomics: the value lives in the struct's field "v"
 	for _, t := range []struct {
 		name string
